@@ -148,7 +148,7 @@ def build_model_driver():
     exe = os.path.join(BUILD, 'mdriver')
     if stamp_ok('driver', dig) and os.path.exists(exe):
         return
-    rc, out = build_coq(['model/Sys.vo', 'spec/Spec.vo', 'proofs/ClassifyProofs.vo'])
+    rc, out = build_coq(['model/Sys.vo', 'spec/Spec.vo', 'spec/SpecTx.vo', 'proofs/ClassifyProofs.vo'])
     if rc != 0: raise BuildError('model does not compile against the regenerated facts', out)
     ml = os.path.join(BUILD, 'ml'); os.makedirs(ml, exist_ok=True)
     rc, out = sh(['coqc'] + coq_flags() + ['-o', os.path.join(ml, 'Extract.vo'), os.path.join(COQ, 'extract/Extract.v')], cwd=ml)
@@ -169,6 +169,15 @@ def run_model(scn_path, out_path, timeout=1800):
     with open(out_path, 'w') as o, open(out_path + '.err', 'w') as e:
         p = subprocess.run([os.path.join(BUILD, 'mdriver'), scn_path], stdout=o, stderr=e, timeout=timeout)
     return p.returncode
+
+def run_xoracle(impl_out):
+    """extracted Coq specification predicates on the implementation's trace -> {scenario: [(opidx, msg)]}"""
+    p = subprocess.run([os.path.join(BUILD, 'mdriver'), '--oracle', impl_out], stdout=subprocess.PIPE, stderr=subprocess.PIPE, text=True, timeout=1800)
+    res = {}
+    for l in p.stdout.split('\n'):
+        t = l.split('\t')
+        if len(t) == 3: res.setdefault(t[0], []).append((int(t[1]), t[2]))
+    return res
 
 class Block:
     __slots__ = ('op', 'acts', 'status', 'fault', 'kv', 'expect')
